@@ -321,6 +321,99 @@ func c03SaveKill(w *bufio.Writer, rng *hx.Rng) {
 	b.emit(w, mode, 1, 64, 1, fmt.Sprintf("%s%d", kind, rng.Range(1, 3)))
 }
 
+// a line is appended to an idle file and at once the file leaves the watched directory (moved out with or
+// without a new file under its old name, or unlinked): maintenance must read what is unread on the
+// descriptor it holds before it releases the job. Kill only after everything of that file is acked
+// (a file outside the directory is not found again by a restart).
+func c03Depart(w *bufio.Writer, rng *hx.Rng) {
+	b := &c03B{}
+	nstreams := rng.Range(1, 2)
+	nfiles := rng.Range(1, 2)
+	var files []int
+	for i := 0; i < nfiles; i++ {
+		f := b.newFile()
+		files = append(files, f)
+		if rng.Chance(1, 2) {
+			b.appendLines(rng, f, rng.Range(1, 3), nstreams)
+		}
+	}
+	b.step("U")
+	for _, f := range files {
+		if rng.Chance(2, 3) {
+			b.appendLines(rng, f, rng.Range(1, 3), nstreams)
+		}
+	}
+	b.step("W")
+	if rng.Chance(2, 3) {
+		b.step("KA")
+		b.step("W")
+	} else {
+		for k := rng.Range(0, 3); k > 0; k-- {
+			b.step("K %d", rng.Intn(4))
+		}
+	}
+	f := files[rng.Intn(len(files))]
+	// the pending append: whole lines, sometimes completing in two writes
+	if rng.Chance(5, 6) {
+		var d []byte
+		for k := rng.Range(1, 2); k > 0; k-- {
+			d = append(d, b.line(c03Streams[rng.Intn(nstreams)], rng.Range(0, 6))...)
+		}
+		if rng.Chance(1, 4) && len(d) > 4 {
+			k := rng.Range(1, len(d)-1)
+			b.app(f, d[:k])
+			b.app(f, d[k:])
+		} else {
+			b.app(f, d)
+		}
+	}
+	switch rng.Intn(3) {
+	case 0:
+		g := b.nfiles
+		b.nfiles++
+		b.step("RO %d %d", f, g)
+		files = append(files, g)
+	case 1:
+		b.step("O %d", f)
+	default:
+		b.step("D %d", f)
+	}
+	for i, x := range files {
+		if x == f {
+			files = append(files[:i], files[i+1:]...)
+			break
+		}
+	}
+	b.step("KQ")
+	for _, g := range files {
+		if rng.Chance(1, 2) {
+			b.appendLines(rng, g, rng.Range(1, 2), nstreams)
+		}
+	}
+	mode := "a"
+	if rng.Chance(1, 2) {
+		mode = "s"
+	}
+	if rng.Chance(1, 2) && len(files) > 0 {
+		b.step("W")
+		for k := rng.Range(0, 3); k > 0; k-- {
+			b.step("K %d", rng.Intn(4))
+		}
+		if rng.Chance(1, 2) {
+			b.step("S")
+		}
+		b.step("X")
+		for _, g := range files {
+			if rng.Chance(1, 2) {
+				b.appendLines(rng, g, rng.Range(1, 2), nstreams)
+			}
+		}
+		b.step("U")
+	}
+	bufs := []int{16, 64, 4096}
+	b.emit(w, mode, rng.Range(1, 2), bufs[rng.Intn(len(bufs))], rng.Range(1, 3), "x")
+}
+
 func genC03Cases(w *bufio.Writer, rng *hx.Rng, tier string) {
 	nrand, ntr, nsave, sweepStep := 300, 40, 8, 2
 	if tier == "thorough" {
@@ -340,6 +433,13 @@ func genC03Cases(w *bufio.Writer, rng *hx.Rng, tier string) {
 	}
 	for i := 0; i < nsave; i++ {
 		c03SaveKill(w, rng)
+	}
+	ndep := 30
+	if tier == "thorough" {
+		ndep = 300
+	}
+	for i := 0; i < ndep; i++ {
+		c03Depart(w, rng)
 	}
 	for i := 0; i < nrand; i++ {
 		c03Random(w, rng, false)
